@@ -13,12 +13,13 @@ def jsonTok (t : String) : Option Line :=
     | _ => none
   else ((hexDecode t).bind parseDoc).map .doc
 
-/-- `json <N> <flush ms> | tokens`: the model is run without flush ticks (the harness only uses
+/-- `json <N> <flush ms> [files] | tokens` (`files`: the implementation writes a file per flush; what it delivered is the
+files in order, which is what the model computes): the model is run without flush ticks (the harness only uses
 streams whose decoded samples do not depend on them).  `NOEOL` (the text does not end with a
 newline) is not a line: the scanner's contract is that an unterminated last line is a line. -/
 def jsonCmd (ws : List String) : String :=
   match sections ws with
-  | [[ns, _], toks] =>
+  | [ns :: _ :: _, toks] =>
     match ns.toNat?, (toks.filter (· != "NOEOL")).mapM jsonTok with
     | some n, some lines =>
       match collectJSON n (lines.map .line) with
